@@ -119,7 +119,8 @@ def gen_proto(rng):
                                   if rng.random() < 0.35]})
     return {'mode': 'proto', 'types': types,
             'prefix': rng.choice(['init_', 'init_', 'make', '_b_', '']),
-            'sub_prefix': rng.choice([None, None, 'mk_'])}
+            'sub_prefix': rng.choice([None, None, 'mk_']),
+            'falsy_factories': rng.random() < 0.25}
 
 
 def gen_cases(tier, seed):
@@ -148,7 +149,9 @@ def gen_cases(tier, seed):
                    'remove_at': rng.choice([None, 1, 2]),
                    'raise_at': rng.choice([None, None, 0, 1]),
                    # value-like listeners (all equal, equally hashed)
-                   'equal_listeners': rng.random() < 0.3}
+                   'equal_listeners': rng.random() < 0.3,
+                   'param_style': rng.choice(['dt', 'delta', 'star',
+                                              'posonly'])}
 
 
 def run_case(case):
@@ -411,6 +414,17 @@ def run_twin(case):
 
 # --------------------------------------------------------------------------
 
+class FalsyFactory:
+    def __init__(self, fn):
+        self.fn = fn
+
+    def __call__(self, *args):
+        return self.fn(*args)
+
+    def __len__(self):
+        return 0
+
+
 def run_proto(case):
     desper = import_desper()
     res = Res()
@@ -448,6 +462,11 @@ def run_proto(case):
             src = [x for x in src if x not in ('method', 'sub_method')]
         if 'dict' in src:
             base_ns['init_methods'][cls] = stamp('dict', i)
+            if case.get('falsy_factories'):
+                # a callable entry that is a falsy object (e.g. a pool that
+                # is empty at the moment)
+                base_ns['init_methods'][cls] = FalsyFactory(stamp('dict', i))
+                res.tags['falsy_factories'].add(True)
         if 'method' in src:
             # for duplicate names the last definition wins, as in Python
             base_ns[f'{prefix}{name}'] = (
@@ -586,14 +605,30 @@ def run_onupdate(case):
 
     fault = {'armed': False, 'obj': None}
 
-    @desper.event_handler('on_update')
-    class L:
+    def received(self, dt):
+        log.append((self.uid, dt))
+        if fault['armed']:
+            fault['armed'] = False
+            fault['obj'] = HarnessError('listener failed')
+            raise fault['obj']
+
+    # the callback's parameter has whatever name its author gave it
+    style = case.get('param_style', 'dt')
+    if style == 'delta':
+        def on_update(self, delta):
+            received(self, delta)
+    elif style == 'star':
+        def on_update(self, *args):
+            received(self, *args)
+    elif style == 'posonly':
+        def on_update(self, elapsed, /):
+            received(self, elapsed)
+    else:
         def on_update(self, dt):
-            log.append((self.uid, dt))
-            if fault['armed']:
-                fault['armed'] = False
-                fault['obj'] = HarnessError('listener failed')
-                raise fault['obj']
+            received(self, dt)
+    res.tags['on_update_parameter'].add(style)
+    L = desper.event_handler('on_update')(
+        type('L', (), {'on_update': on_update}))
 
     if case.get('equal_listeners'):
         L.__eq__ = lambda self, other: isinstance(other, L)
